@@ -1,6 +1,7 @@
 package main
 
 import (
+	"ergo.services/ergo/lib"
 	"fmt"
 	"sort"
 	"strings"
@@ -119,6 +120,7 @@ func runSupK4(c *Ctx) {
 		return
 	}
 	defer node.StopForce()
+	k4WitnessD28(c, node)
 	n := c.N(40, 600)
 	for it := 0; it < n; it++ {
 		g := c.Rng.Fork()
@@ -232,6 +234,14 @@ func runSupK4(c *Ctx) {
 				r.Count("k4.waited-again")
 				nodeS = view(k4Quiesce(sc))
 			}
+			if strings.Contains(nodeTerm, "resource is taken") {
+				// D28 (listed): the node delivered the child's exit signal before releasing its registered name;
+				// the restart's SpawnRegister failed with gen.ErrTaken and the supervisor terminated with it.
+				r.Count("k4.D28-name-still-taken")
+				r.Violation("C08/D28-restart-name-taken", fmt.Sprintf("%v after %v: node %s", cfg, script, nodeS),
+					map[string]interface{}{"config": cfg, "script": script})
+				break
+			}
 			r.Case(fmt.Sprintf("k4/%v/%s", cfg, strings.Join(script, ";")), true)
 			r.Count("k4.episodes")
 			if nodeTerm != "" {
@@ -268,4 +278,75 @@ func runSupK4(c *Ctx) {
 		node.Kill(supPid)
 		k4Quiesce(sc)
 	}
+}
+
+// k4WitnessD28: deterministic replay of D28 on the real node.  node.unregisterProcess sends the exit signals
+// (RouteTerminatePID) BEFORE it releases the registered name; the verif yield point between the two parks the dying
+// child there, so the supervisor handles the exit while the name is still taken: the restart fails with gen.ErrTaken
+// and the supervisor — a Permanent one-for-one with a single child — terminates with that error instead of restarting.
+func k4WitnessD28(c *Ctx, node gen.Node) {
+	r := c.R
+	sc := &k4Scenario{}
+	name := gen.Atom(fmt.Sprintf("d28_%d_c1", time.Now().UnixNano()%1000000))
+	sc.spec = act.SupervisorSpec{Type: act.SupervisorTypeOneForOne,
+		Restart:  act.SupervisorRestart{Strategy: act.SupervisorStrategyPermanent, Intensity: 5, Period: 5},
+		Children: []act.SupervisorChildSpec{{Name: name, Factory: k4ChildFactory, Args: []any{sc, string(name)}}}}
+	release := make(chan struct{})
+	parked := make(chan struct{}, 1)
+	lib.VerifHandler = func(obj any, label string) {
+		if label != "unregister:exit-signals-sent" {
+			return
+		}
+		if p, ok := obj.(interface{ Name() gen.Atom }); ok && p.Name() == name {
+			select {
+			case parked <- struct{}{}:
+				select {
+				case <-release:
+				case <-time.After(3 * time.Second):
+				}
+			default: // only the first incarnation is parked
+			}
+		}
+	}
+	defer func() { lib.VerifHandler = nil }()
+	supPid, err := node.Spawn(k4SupFactory, gen.ProcessOptions{}, sc)
+	if err != nil {
+		r.Note("D28 witness: cannot start the supervisor: %v", err)
+		return
+	}
+	k4Quiesce(sc)
+	var child gen.PID
+	for _, e := range sc.snapshot() {
+		if e.Kind == "start" {
+			child = e.PID
+		}
+	}
+	node.Send(child, supReason("o1"))
+	select {
+	case <-parked:
+	case <-time.After(2 * time.Second):
+		close(release)
+		r.Count("k4.D28-witness-inconclusive")
+		node.Kill(supPid)
+		return
+	}
+	evs := k4Quiesce(sc) // the supervisor handles the exit while the child is parked before the name release
+	close(release)
+	term := ""
+	for _, e := range evs {
+		if e.Kind == "supterm" {
+			term = e.Reason
+		}
+	}
+	r.Count("witness.D28")
+	r.Case("witness/D28", true)
+	if strings.Contains(term, "resource is taken") {
+		r.Violation("C08/D28-restart-name-taken",
+			"Permanent one-for-one supervisor, child exits with an error, its exit signal is handled before node.unregisterProcess has released the registered name: the restart fails with 'resource is taken' and the supervisor terminates with that error",
+			map[string]interface{}{"trace": fmt.Sprint(evs)})
+	} else if term != "" {
+		r.Note("D28 witness: supervisor terminated with %q", term)
+	}
+	node.Kill(supPid)
+	k4Quiesce(sc)
 }
